@@ -306,7 +306,9 @@ def predicates(inp, res=None, full=True):
     FD, IFD, Fs1 = fd_reference(res, want_infid and full, 1e-4)
     FDb, IFDb, Fs2 = fd_reference(res, want_infid and full, 2e-3)
     Fmax = max(np.abs(np.einsum('aao->ao', p.get_filter_function(om)).real[res['n_idx']]).max(), Fs1, Fs2)
-    floor = 1e-9 * Fmax * p.dt.max() * max(1.0, max(np.linalg.norm(p.c_opers[h], 2) for h in res['c_idx']))
+    # absolute floor: the limit-value windows of the package (|x dt| <= 1e-7 in _first_order_integral, |Omega_pq dt| < 1e-7
+    # in _derivative_integral / _liouville_derivative) are accurate to 1e-7 of the natural scale F*dt*||C|| only
+    floor = 2e-7 * Fmax * p.dt.max() * max(1.0, max(np.linalg.norm(p.c_opers[h], 2) for h in res['c_idx']))
     sig = SIG_CANCEL if cls['cancellation'] else 'c11-fd-mismatch'
     err, scale = fd_error(D, (FD, FDb))
     if err > FD_TOL * scale + floor:
@@ -337,7 +339,7 @@ HDR = ("From Coq Require Import ZArith List String.\n"
        "From FF Require Import Base.Ops Inst.Param Model.Consts Model.GradConsts Model.Numeric Model.Gradient "
        "Corr.Agree Corr.Obs Corr.ObsC11.\n"
        "Import ListNotations.\nLocal Open Scope string_scope.\n")
-TH3 = "(dy O di_thr_dE, dy O di_thr_EdE, dy O di_thr_EdEdE)"
+TH3 = "(dy O di_thr_dE, dy O di_thr_series)"
 THA = "(dy O ld_thr)"
 
 
@@ -548,8 +550,7 @@ def run(ctx):
         else:
             dis['g%d' % j] = (E, ev, dt, kind)
     res2 = eval_retry(ctx, list(dis), lambda nm, big: coq_di_case(nm, *dis[nm][:3], big), 16, 4)
-    near = [nm for nm in dis if dis[nm][3].endswith('/near')]
-    res2l = dict(zip(near, eval_retry(ctx, near, lambda nm, big: coq_di_case(nm, *dis[nm][:3], big, loose=True), 16, 4)))
+    res2l = {}
     bdefs = bookkeeping_defs(cases[:12])
     res3 = ctx.eval_tallies(HDR, bdefs, per_file=64)
     agree = undec = 0
